@@ -3,6 +3,7 @@ array/array_traits.c, convert/data_converter.c, meta/meta_reference_traits.c, me
 event/reply_deferrable.c, core.h reference<T>, mpt++/refcount_wrap.cpp, mpt++/metatype_generic.cpp, mptplot/rawdata_create.c,
 mptplot/values/iterator_file.c, mptio stream input)."""
 import itertools
+import os
 from vcheck import DiffProperty, ASAN_LEAK_ENV, build_harness, build_model, run_cases
 
 MAX = "ffffffffffffffff"
@@ -10,10 +11,17 @@ MAX1 = "fffffffffffffffe"
 ARITY = {"new": 2, "mbuf": 2, "addref": 2, "unref": 1, "clone": 2, "conv": 2, "rinit": 3, "rfini": 2, "rcopy": 0,
          "aclone": 2, "aclear": 1, "detach": 1, "detachf": 1, "setin": 2, "defer": 2, "force": 2, "unforce": 0,
          "xnew": 1, "xassign": 2, "xcopy": 2, "xmove": 2, "xdetach": 2, "xset": 2, "xdrop": 1, "xgen": 1, "xclone": 2,
+         "modify": 3, "advance": 1, "rget": 2, "rread": 1,
          "set": 1, "raise": 0, "lower": 0}
 MKINDS = ["hcnt", "huni", "gen", "cfg", "top", "reply", "raw", "stream", "iterf", "itern"]      # created by "new" in a metatype slot
 COUNTED = ["hcnt", "reply", "raw", "stream", "iterf", "itern"]
 CLONEABLE = ["huni", "gen", "cfg", "mbuf", "itern"]
+# rawdata->advance() on an object WITHOUT stage buffer creates an untyped buffer: value stores assigned later are never
+# released (docs/C15_rawdata_advance.diff).  The model is the patched code.  While the patch is not in the tree the
+# generator emits `advance` only where the object is known to own a stage buffer; set to True after the fix is committed.
+ADVANCE_EMPTY = False or os.environ.get("VERIF_C15_ADVANCE_EMPTY") == "1"   # the environment switch is for trying it out
+RAW_OPS = ["modify 0 0 0", "modify 1 1 1", "modify 0 2 2", "modify 0 0 3", "modify 1 0 4", "rget 0 6", "rget 1 7",
+           "setin 0 6", "setin 1 7", "aclear 6", "rread 0", "new buf 7", "aclone 7 6"]
 BKINDS = ["buf", "hbuf"]
 C_CLEAN = ["unforce"] + ["unref %d" % i for i in range(6)] + ["aclear %d" % i for i in (6, 7, 8)] + ["unref %d" % i for i in (9, 10, 11)]
 X_CLEAN = ["unforce"] + ["xdrop %d" % i for i in (12, 13, 14)] + ["unref %d" % i for i in (15, 16, 17)]
@@ -53,9 +61,10 @@ class C15(DiffProperty):
     rule = ("a case = one history of handle operations over up to three objects and up to six handle slots per kind, run from an "
             "empty state, followed by a clean-up (counters given back, every slot dropped) and a LeakSanitizer pass; families: "
             "c = C object kinds (harness counted/unique metatypes and buffer with logging vtables; library buffer, geninfo, meta "
-            "buffer, config root and static top, deferrable reply context, rawdata, stream input, file iterator by descriptor / by name) under new/addref/unref/clone/"
+            "buffer, config root and static top, deferrable reply context, rawdata (plot data object) with its stage buffer, stream input, file iterator by descriptor / by name) under new/addref/unref/clone/"
             "assignment through conversion/reference-traits init+fini (metatype, input and array traits)/element-wise reference "
-            "array copy/array clone+clear/buffer detach (also with a refused content copy)/rawdata array member/reply defer/counter field forced to 1,2,max-1,max; "
+            "array copy/array clone+clear/buffer detach (also with a refused content copy)/rawdata modify (scalar, vector, offset, refused type or cycle)+advance+stage "
+            "array shared out into an array and handed to another rawdata object+accessors/reply defer/counter field forced to 1,2,max-1,max; "
             "x = mpt++ reference<T> under set_instance/copy-assign/copy-construct/move/detach/raw addref+unref/forced counter; "
             "g = the same operations plus clone on metatype::generic objects held by reference<metatype>; "
             "r,y = the bare counter through mpt_refcount_raise/lower and refcount::raise/lower from 0,1,2,max-1,max. quick: EVERY "
@@ -69,7 +78,10 @@ class C15(DiffProperty):
                 "array/array_traits.c, meta/meta_reference_traits.c, mptio/input_traits.c, convert/data_converter.c "
                 "(_mpt_metatype_wrap, TypeMetaRef target), meta/meta_geninfo.c, array/meta_buffer.c, config/config_global.c "
                 "(reference part), event/reply_deferrable.c (counter, defer, deferred reply without message), "
-                "mptplot/rawdata_create.c, mptplot/values/iterator_file.c and mptio/stream/stream_input.c (reference part), core.h reference<T>, "
+                "mptplot/rawdata_create.c (object + its stage array: create, addref/unref, clone refused, modify/advance as far as they create, "
+                "detach or keep the stage buffer, cycle limit 0; the value store arrays and data buffers INSIDE a stage buffer are contents: "
+                "typed copy/fini loops of C04/C05, checked here by a harness monitor and the sanitizers only), "
+                "mptplot/values/iterator_file.c and mptio/stream/stream_input.c (reference part), core.h reference<T>, "
                 "mpt++/refcount_wrap.cpp, mpt++/metatype_generic.cpp (addref/unref/clone) transcribed in coq/C15/RefcountModel.v; "
                 "not modelled: mptcore/array/buffer_map.c (its constructor can never succeed: page size test inverted), "
                 "mptio/output_remote.c, mptplot/history/output_local.c, mpt++/io_buffer_metatype.cpp, io_stream_input.cpp; contents of buffers, typed buffer elements "
@@ -80,11 +92,15 @@ class C15(DiffProperty):
                "every case reports objects neither freed nor reachable",
                "uintptr_t is 64 bit (checked by the harness at run time; the model's modulus is 2^64)",
                "the element-wise copy loop with undo of ORefCopy is the harness' own (the traits contract), not library code",
+               "rawdata: after every operation the harness walks every existing stage buffer and compares the counter field of each value "
+               "store array with the number of stages referring to it and checks that every data buffer exists (token suffix !nested); "
+               "values/dimension_count/stage_count/convert results are compared with the structure read back by the harness (rread); "
+               "the stage member is only ever given stage buffers (setin restricted), all objects have cycle limit 0",
                "c15_cxx.cpp reads the private counter member of metatype::generic by compiling meta.h with private/protected "
                "redefined to public (no layout change with g++)"]
-    level_text = ("proof: Coq theorems (coq/C15/Properties.v) state for the transcribed mechanism, for EVERY history of the 26 handle "
+    level_text = ("proof: Coq theorems (coq/C15/Properties.v) state for the transcribed mechanism, for EVERY history of the 30 handle "
                   "operations from the empty state (induction over the operation list, no bound on length, objects or counter "
-                  "values) and all 15 object kinds: REFINEMENT of the counter-free handle-multiset specification (RefcountSpec.v: "
+                  "values) and all 16 object kinds: REFINEMENT of the counter-free handle-multiset specification (RefcountSpec.v: "
                   "state = created objects + slots, step = handle moves, alive/count/shareable DERIVED from the handles) by the "
                   "mechanism model (counter fields, destruction flags, vtable calls): every operation from every pair of related "
                   "states returns the specification's output and ends in a state related to the specification's next state "
@@ -101,7 +117,8 @@ class C15(DiffProperty):
                   "C15_counter_refines_spec); replacing a held reference by conversion, array clone or reference<T>::operator= "
                   "releases the old referent once and retains the new one once, any kind, target empty/held/same "
                   "(C15_assign_any_form_releases_old_once_retains_new_once, C15_assign_releases_old_once_retains_new_once, "
-                  "C15_assign_refused_unchanged, C15_assign_same_unchanged); the invariant is inductive from any state "
+                  "C15_assign_refused_unchanged, C15_assign_same_unchanged); modify/advance of the plot data object never change a sharer's slot, "
+                  "a shared stage buffer is detached for the object (C15_rawdata_modify_keeps_sharers); the invariant is inductive from any state "
                   "(C15_step_preserves_invariant); the model is tied to the code on every run by differential execution under "
                   "ASan/UBSan/LSan with counter fields, destruction time and vtable call order compared")
     level_note = ("trusted: Coq kernel; hand transcription of the C/C++ sources (validated by the correspondence run, not verified); "
@@ -115,7 +132,11 @@ class C15(DiffProperty):
                   "kinds whose destruction is seen only through ASan/LSan (stream input, rawdata, reply context, geninfo, meta "
                   "buffer, config root) are correspondence-level for the destruction TIME; buffer contents / typed elements "
                   "(C04/C05) and reply transport (C12) are outside. The theorems hold for the tree with the fix: commits "
-                  "(data_converter.c, input_traits.c, array_clone.c, buffer_alloc.c detach failure path). "
+                  "(data_converter.c, input_traits.c, array_clone.c, buffer_alloc.c detach failure path, metatype_generic.cpp). "
+                  "OPEN DEFECT modelled as patched: rawdata advance() on an object without stage buffer creates an UNTYPED buffer, value "
+                  "stores assigned later are never released (replay c new raw 0 advance 0 modify 0 0 0 unref 0: I L1, S L0; patch "
+                  "docs/C15_rawdata_advance.diff); until it is in the tree the generator emits advance only for objects that own a "
+                  "stage buffer (ADVANCE_EMPTY = False in props/c15.py; two corpus lines marked #~). "
                   "All theorems closed under the global context.")
     technique = ("Coq forward-simulation (refinement) proof mechanism model -> handle-multiset specification for every operation and "
                  "every history, invariant counter = handle multiset + differential correspondence check")
@@ -234,8 +255,30 @@ class C15(DiffProperty):
                         pre.append("addref 7 8")
                 cs.append(ccase(pre + ["aclone 6 7", "aclone 6 7", "aclone 7 7", "aclear 6", "aclone 6 7"]))
                 cs.append(ccase(pre + ["rinit 0 6 8", "rfini 0 7", "rinit 0 7 7", "detach 7", "detach 6"]))
-                cs.append(ccase(pre + ["new raw 0", "setin 0 6", "setin 0 7", "setin 0 7", "addref 0 1", "aclear 6", "aclear 7",
-                                       "setin 0 8", "unref 0"]))
+        cs += self.raw_cases()
+        return cs
+
+    def raw_cases(self):
+        """the plot data object: its stage buffer created, shared out, detached on modify, handed to another object"""
+        cs = []
+        adv = ["advance 0"]
+        for share in ([], ["rget 0 6"], ["rget 0 6", "addref 6 7"], ["rget 0 6", "mbuf 6 1", "clone 1 2"],
+                      ["rget 0 6", "new raw 1", "setin 1 6"], ["rget 0 6", "new raw 1", "setin 1 6", "aclear 6"],
+                      ["addref 0 1", "rget 1 7", "rinit 0 7 8"]):
+            for mod in (["modify 0 0 0"], ["modify 0 1 1", "modify 0 0 2"], ["modify 0 0 3", "modify 0 0 4"], ["rread 0"], adv,
+                        adv + ["modify 0 1 0"], ["modify 1 0 0", "modify 0 0 0"]):
+                cs.append(ccase(["new raw 0", "modify 0 0 0"] + share + mod +
+                                ["rread 0", "rget 0 8", "aclear 6", "modify 0 2 0", "rread 1", "setin 0 7", "modify 0 0 1", "unref 0"]))
+                cs.append(ccase(["new raw 0"] + share + ["modify 0 0 0"] + mod + ["unref 0", "rread 1", "aclear 6"]))
+        # mpt_array_clone refuses to replace a typed (stage) buffer by an untyped one and the other way round
+        for k in BKINDS:
+            for ops in (["rget 0 8", "aclone 6 8", "aclone 8 6"], ["rget 0 6"], ["rget 0 7", "aclone 7 6", "aclone 6 7", "rinit 0 7 8"],
+                        ["rget 0 8", "new raw 1", "setin 1 6", "setin 1 8", "rget 1 6", "aclear 6", "rget 1 6"]):
+                cs.append(ccase(["new raw 0", "modify 0 0 0", "new %s 6" % k] + ops + ["rread 0", "modify 0 1 1", "unref 0"]))
+        if ADVANCE_EMPTY:
+            for tail in ([], ["modify 0 0 0"], ["rget 0 6", "modify 0 0 0"], ["rget 0 6", "new raw 1", "setin 1 6", "modify 1 0 0", "modify 0 1 1"]):
+                cs.append(ccase(["new raw 0", "advance 0"] + tail + ["rread 0", "unref 0"]))
+                cs.append(ccase(["new raw 0", "modify 0 0 0", "setin 0 8", "advance 0"] + tail + ["rread 0", "unref 0"]))
         return cs
 
     def alphabet(self, kind):
@@ -244,7 +287,7 @@ class C15(DiffProperty):
         if kind == "reply":
             a += ["defer 0 9", "defer 1 10", "unref 9", "unref 10"]
         if kind == "raw":
-            a += ["new buf 6", "setin 0 6", "setin 1 6", "aclear 6"]
+            a += RAW_OPS + (["advance 0", "advance 1"] if ADVANCE_EMPTY else [])
         if kind == "mbuf":
             a += ["aclear 6", "addref 6 7", "detach 6", "aclear 7"]
         if kind in COUNTED:
@@ -258,6 +301,13 @@ class C15(DiffProperty):
             for n in range(1, depth + 1):
                 for seq in itertools.product(a, repeat=n):
                     cs.append(ccase(mk(kind, 0) + list(seq)))
+        if not ADVANCE_EMPTY:
+            # advance where the object owns a stage buffer for sure: after a modify, nothing in the alphabet empties the member
+            a = [o for o in self.alphabet("raw") if not o.startswith("setin")] + ["advance 0", "advance 1"]
+            for n in range(1, depth + 1):
+                for seq in itertools.product(a, repeat=n):
+                    if any(o.startswith("advance") for o in seq):
+                        cs.append(ccase(["new raw 0", "modify 0 0 0"] + list(seq)))
         for kind in BKINDS:
             a = ["addref 6 7", "addref 7 8", "unref 6", "unref 7", "aclone 6 7", "aclone 7 6", "aclone 8 6", "aclone 7 7",
                  "aclear 6", "aclear 7", "rinit 0 6 8", "rfini 0 8", "detach 6", "detach 7", "detachf 6", "detachf 7", "mbuf 6 0", "clone 0 1", "unref 0",
@@ -281,6 +331,11 @@ class C15(DiffProperty):
                 for share in (["addref 6 7", "addref 6 8"], ["aclone 6 7", "aclone 6 8"], ["rinit 0 6 7", "rinit 0 6 8"],
                               ["mbuf 6 0", "mbuf 6 1", "clone 0 2"], ["detach 6"], ["detachf 6"], ["addref 6 7", "detachf 7", "detachf 6"], ["new raw 0", "setin 0 6", "new raw 1", "setin 1 6"]):
                     cs.append(ccase(["new %s 6" % kind, "force 6 " + v] + share + ["aclear 6", "unforce"]))
+        for v in ("1", "2", "3", MAX1, MAX):
+            for share in (["rget 0 7", "rget 0 8"], ["modify 0 0 0"], ["modify 0 1 1", "rread 0"], ["new raw 1", "setin 1 6", "modify 1 0 0"],
+                          ["mbuf 6 1", "clone 1 2"], ["aclone 6 7", "aclone 6 8"], ["rinit 0 6 7", "modify 0 0 0"]):
+                cs.append(ccase(["new raw 0", "modify 0 0 0", "rget 0 6", "force 6 " + v] + share + ["aclear 6", "unforce"]))
+                cs.append(ccase(["new raw 0", "modify 0 0 0", "rget 0 6", "aclear 6", "rget 0 6", "force 6 " + v] + share + ["unref 0", "unforce"]))
         for v in ("1", "2", MAX1, MAX):
             for share in (["xassign 12 13", "xassign 12 14"], ["xcopy 12 13", "xcopy 13 14"], ["xmove 12 13", "xassign 13 12"],
                           ["xdetach 12 15", "addref 15 16", "addref 15 17"], ["xassign 12 13", "xcopy 12 13", "xassign 13 13"]):
@@ -392,7 +447,9 @@ class C15(DiffProperty):
                 if filled[s] == "reply":
                     ops.append(rng.choice(["defer %d %d" % (s, rng.choice((9, 10, 11))), "unref %d" % rng.choice((9, 10, 11))]))
                 elif filled[s] == "raw":
-                    ops.append("setin %d %d" % (s, rng.choice((6, 7, 8))))
+                    ops.append(rng.choice(["modify %d %d %d" % (s, rng.randrange(3), rng.randrange(5)), "modify %d 0 0" % s,
+                                           "rget %d %d" % (s, rng.choice((6, 7, 8))), "setin %d %d" % (s, rng.choice((6, 7, 8))),
+                                           "rread %d" % s] + (["advance %d" % s] if ADVANCE_EMPTY else [])))
                 else:
                     ops.append("unref %d" % rng.choice((9, 10)))
             elif r < 0.97 and (ms or as_):
